@@ -222,3 +222,22 @@ func RetLogOnly(x int) error {
 	}
 	return nil
 }
+
+// ---- bool validators written as expressions
+func validB(b []byte) bool { return b != nil && len(b) == 4 }
+
+func LenViaBoolExprOK(b []byte) [4]byte {
+	if !validB(b) {
+		return [4]byte{}
+	}
+	return [4]byte(b)
+}
+
+func weakB(b []byte) bool { return b != nil || len(b) == 4 }
+
+func LenViaWeakBoolBad(b []byte) [4]byte {
+	if !weakB(b) {
+		return [4]byte{}
+	}
+	return [4]byte(b)
+}
